@@ -284,7 +284,14 @@ def check(run, tier):
                     t2 = b_["term"]
                     if t2["k"] == "call" and t2["dest"]["l"] == 0:
                         r2 = (t2["f"]["resolved"] or t2["f"]["declared"]) if t2["f"]["k"] == "item" else None
-                        writers.append(("search" if bi_ == gb[0] else ("residual" if r2 is not None and r2["def"].endswith("::from_residual") else "call"), bi_))
+                        kind2 = "search" if bi_ == gb[0] else ("residual" if r2 is not None and r2["def"].endswith("::from_residual") else "call")
+                        # `search(..).map(|()| list)`: a Result combinator applied to the search's own result can
+                        # turn Ok into Ok only when the search returned Ok
+                        if kind2 == "call" and r2 is not None and r2["def"] in ("core::result::Result::<T, E>::map", "core::result::Result::<T, E>::and_then", "core::result::Result::<T, E>::map_err") and t2["args"]:
+                            a0 = t2["args"][0].get("m") or t2["args"][0].get("c")
+                            if a0 is not None and not a0["p"] and a0["l"] in ce.copies_of(ce.blocks[gb[0]]["term"]["dest"]["l"]):
+                                kind2 = "search"
+                        writers.append((kind2, bi_))
                 through = bool(writers) and all(w[0] in ("search", "residual") for w in writers) and any(w[0] == "search" for w in writers)
             run.obligation(through)
             if not through:
